@@ -31,6 +31,11 @@ def _cases():
             for old in (None, "old"):
                 for how in ("filename", "tag"):
                     out.append(("persist", old, size, (style, how)))
+    # an earlier save of a LARGER object crashed in the middle of its dump and left its temporary file
+    # behind (which the property allows); a later, shorter save must still leave complete old or new content
+    for style in ("pickle", "source"):
+        for old in (None, "old"):
+            out.append(("persist", old, "small", (style, "filename", "leftover")))
     return out
 
 
@@ -54,7 +59,8 @@ def _setup(case, d):
         content = {"empty": b"", "one": b"n", "big": BIG}[new]
         fp = FilePath(target)
         return target, (lambda: fp.setContent(content, extra)), content, old
-    style, how = extra
+    style, how = extra[0], extra[1]
+    leftover = len(extra) > 2
     ext = "tap" if style == "pickle" else "tas"
     if how == "filename":
         target = os.path.join(d, "app." + ext)
@@ -69,9 +75,30 @@ def _setup(case, d):
         p0.save(**kw)
         with real_open(target, "rb") as f:
             oldbytes = f.read()
+    if leftover:
+        big = sob.Persistent(_obj("large"), os.path.join(d, "app"))
+        big.setStyle(style)
+        fs0 = CrashFS(None, root=d)
+        with fs0:
+            big.save(filename=os.path.join(d, "probe." + ext))
+        os.remove(os.path.join(d, "probe." + ext))
+        widx = max((i for i, o in enumerate(fs0.ops) if o[0] == "write"), key=lambda i: fs0.ops[i][2])
+        fs1 = CrashFS((widx, fs0.ops[widx][2] - 3), root=d)
+        with fs1:
+            try:
+                big.save(**kw)
+            except Crash:
+                pass
+        assert fs1.crashed
     p = sob.Persistent(_obj(new), os.path.join(d, "app"))
     p.setStyle(style)
-    return target, (lambda: p.save(**kw)), None, oldbytes
+    # the complete new content, obtained from a save to a fresh path (independent of any leftover file)
+    ref = os.path.join(d, "reference." + ext)
+    p.save(filename=ref)
+    with real_open(ref, "rb") as f:
+        expect = f.read()
+    os.remove(ref)
+    return target, (lambda: p.save(**kw)), expect, oldbytes
 
 
 def _read(path):
